@@ -353,7 +353,7 @@ where
                     if failed.load(Ordering::SeqCst) {
                         let mut st = shrink_start.lock().unwrap();
                         let t0 = *st.get_or_insert_with(std::time::Instant::now);
-                        if t0.elapsed().as_secs() > 90 {
+                        if t0.elapsed().as_secs() > 90 || std::env::var("PVF_NO_SHRINK").is_ok() {
                             return Ok(());
                         }
                     }
